@@ -6,16 +6,16 @@ CONSTANTS
   Threshold <- ThresholdOne2
   Windows = {3, 4, 5}
   LeaderCandidates <- Leader2
-  HeartbeatCandidates <- HbAny
+  HeartbeatCandidates <- HbFirst
   Proposable = {"Heartbeat", "Redemption", "DepositSweep"}
   SignableActions = {"Heartbeat", "DepositSweep"}
-  LeaderFaults = {"silent", "disallowed"}
+  LeaderFaults = {"disallowed"}
   FaultyWallets = {"w1"}
   Hazard = "none"
   Loss = {}
-  Offline = TRUE
+  Offline = FALSE
   SeedFailures = TRUE
-  Slow = {"w1"}
+  Slow = {}
   Lateness = FALSE
   AttemptsLimit = 2
   F <- C_F
